@@ -119,6 +119,24 @@ def exactCol (o : Opts) (Q sr : α) (freqs : List α) (f : α) (sig : List α) :
       let pk := o.peak.sel y ys
       if o.eqsine then some (win.map (· / Q), pk / Q) else some (win, pk)
 
+/-- the specification of one `srs.srs` column for a 0 Hz oscillator (`rolloff='none'`, `ic` other
+than `'steady'`, for which no steady state exists): the rigid closed form `u'' = -x(t)` on the
+shifted record followed by the appended cycle (its length comes from the other frequencies). -/
+def exactCol0 (o : Opts) (Q sr : α) (freqs : List α) (sig : List α) : Option (List α × α) :=
+  match sig with
+  | [] => none
+  | s1 :: _ =>
+    let nz := if o.time = .primary then 0 else nzeros sr freqs
+    let states :=
+      rigidStatesAux (1 / sr) 0 0 0 (sig.map (· - icShift o.ic s1 sig) ++ List.replicate nz 0)
+    let resp := states.map (o.st.out (Osc.ofQ Q (1 / sr) 0))
+    let win := if o.time = .residual then resp.drop sig.length else resp
+    match win with
+    | [] => none
+    | y :: ys =>
+      let pk := o.peak.sel y ys
+      if o.eqsine then some (win.map (· / Q), pk / Q) else some (win, pk)
+
 /-- `np.max(freq)` of a non-empty vector -/
 def maxFreq : List α → Option α
   | [] => none
